@@ -26,6 +26,27 @@ def main():
                 tr = H.ranked_trace(H.R)
                 h = hashlib.sha1(repr((o.status, o.exc, o.value, len(o.unsat), len(o.mism), tr)).encode()).hexdigest()[:16]
                 out["%s|%s|%s" % (name, list(vec), mode)] = h
+    if which == "recorder" and len(sys.argv) > 3 and sys.argv[3] == "blocks":
+        # block programs too (their traces go through dicts and sets of variable NAMES): one fixed input each
+        from pv import blocks
+        from pv.checks import c09
+        progs = blocks.programs(0)
+        for i, stmts in enumerate(progs[:: 3]):
+            try:
+                fo, fn, so, sn = c09.compile_pair(stmts, i % 2 == 0)
+            except Exception:  # noqa: BLE001
+                continue
+            H.reset(bitlength=c09.BITLEN)
+            rt, B = H.rt, H.boolean
+            X, Y, Bv, N = rt.PrivVal(1), rt.PrivVal(2), B.PrivValBool(1), rt.PrivVal(1)
+            Fv = H.fixedpoint.PrivValFxp(c09.FVAL)
+            nv0, nc0 = len(H.R.vars), len(H.R.cons)
+            try:
+                fo(X, Y, Bv, N, Fv)
+                tr = repr(H.R.canonical_trace(nv0, nc0))
+            except Exception as ex:  # noqa: BLE001
+                tr = "raise " + type(ex).__name__
+            out["block|%d" % (i * 3)] = hashlib.sha1(tr.encode()).hexdigest()[:16]
     sys.stdout.write(json.dumps(out))
     sys.stdout.flush()
     os._exit(0)
